@@ -18,12 +18,13 @@ import json
 import os
 import subprocess
 import sys
+import threading
 import time
 
 from lib import tlc
-from lib.common import REPO, ROOT, Machinery, rng, say, scratch, seed, sha
+from lib.common import REPO, ROOT, Machinery, rng, say, scratch, seed
 from lib.par import pmap
-from lib.partlc import parallel
+from lib.partlc import install, parallel
 from lib.verdict import Verdict
 
 PROP = "C17"
@@ -52,8 +53,6 @@ def user_values():
             b[9] &= 0x7F
             b[13] &= 0x7F
             v = bytes(b)
-        if name == "bee_sw_key":
-            pass
         u[name] = v.hex()
     return u
 
@@ -191,15 +190,26 @@ def execute(item):
             evs.append({"ev": "Restart"})
         res = (run_segment_fork if forked else run_segment)(seg, base, fake)  # one project directory for the whole history
         evs.append({"ev": "Import", "n": len(res["import_draws"])})
-        drawn = {}  # value hex -> phase of its (first) draw in this interpreter
-        for ph, _n, hx in res["import_draws"]:
-            drawn.setdefault(hx, "import")
+        drawn, expl = {}, {}  # value hex (and the documented derived forms of a draw) -> phase of its first draw in this interpreter
+
+        def note(ph, n, hx):
+            drawn.setdefault(hx, ph)
+            if n == 16:  # SB2 nonce: bits 31 / 63 of the counter words are cleared after the draw
+                m = bytearray(bytes.fromhex(hx))
+                m[9] &= 0x7F
+                m[13] &= 0x7F
+                drawn.setdefault(bytes(m).hex(), ph)
+            if n == 12:  # BEE counter: 12 drawn bytes + 4 zero bytes
+                drawn.setdefault(hx + "00000000", ph)
+
+        for ph, n, hx in res["import_draws"]:
+            note("import", n, hx)
         for st, rec in zip(seg, res["steps"]):
             if "error" in rec:
                 info["errors"].append({"step": st, "error": rec["error"], "tb": rec.get("tb", "")})
                 return {"id": hid, "ev": evs, "failed": True}, info
-            for ph, _n, hx in rec["draws"]:
-                drawn.setdefault(hx, ph)
+            for ph, n, hx in rec["draws"]:
+                note(ph, n, hx)
             if st["op"] == "Construct":
                 kinds[st["art"]] = (st["kind"], st["how"], list(st["ex"]))
             kind, how, ex = kinds[st["art"]]
@@ -208,12 +218,14 @@ def execute(item):
                 if name in NARROW.get(kind, []) and narts > NARROW_MAX_ARTS:
                     skip.append(name)
                     continue
+                if hx not in expl:
+                    expl[hx] = explain_draw(hx, drawn)
                 if hx not in ids:
                     ids[hx] = len(ids) + 1
-                    where[ids[hx]] = {"hex": hx, "first": f"{st['op']}#{st['art']}/{kind}/{how}/{name}", "drawn": explain_draw(hx, drawn, kind, name)}
+                    where[ids[hx]] = {"hex": hx, "first": f"{st['op']}#{st['art']}/{kind}/{how}/{name}", "drawn": expl[hx]}
                 f[name] = ids[hx]
-                if name not in ex and st["op"] in ("Construct", "Export"):
-                    info["phases"].append((kind, how, "+".join(ex), name, phase_class(explain_draw(hx, drawn, kind, name), st, rec)))
+                if name not in ex:
+                    info["phases"].append((kind, how, "+".join(ex), name, phase_class(expl[hx])))
             if st["op"] == "Construct":
                 evs.append({"ev": "Construct", "art": st["art"], "kind": kind, "how": how, "ex": ex, "f": f, "x": []})
             else:
@@ -224,30 +236,19 @@ def execute(item):
     return {"id": hid, "ev": evs}, info
 
 
-def explain_draw(hx, drawn, kind, name):
-    """Where the value was drawn in this interpreter (only used to explain): phase string, or 'not drawn through spsdk.crypto.rng'."""
+def explain_draw(hx, drawn):
+    """Where the value was drawn in this interpreter (only used to explain a rejection and to measure drift of the I-spec)."""
     if hx in drawn:
         return drawn[hx]
-    raw = bytes.fromhex(hx)
-    for d, ph in drawn.items():
-        b = bytes.fromhex(d)
-        if len(b) == 16 and len(raw) == 16 and name == "nonce":  # SB2 nonce: two bits of the draw are cleared
-            m = bytearray(b)
-            m[9] &= 0x7F
-            m[13] &= 0x7F
-            if bytes(m) == raw:
-                return ph
-        if name == "counter" and len(b) == 12 and raw[:12] == b:  # BEE counter: 12 drawn bytes + 4 zero bytes
-            return ph
-    if not any(raw):
+    if not any(bytes.fromhex(hx)):
         return "constant zero"
     for d, ph in drawn.items():
         if len(d) > len(hx) and hx in d and d.index(hx) % 2 == 0:
-            return f"{ph} (bytes {d.index(hx) // 2}..{d.index(hx) // 2 + len(raw)} of a {len(d) // 2}-byte draw)"
+            return f"{ph} (bytes {d.index(hx) // 2}..{d.index(hx) // 2 + len(hx) // 2} of a {len(d) // 2}-byte draw)"
     return "not drawn through spsdk.crypto.rng in this interpreter"
 
 
-def phase_class(ph, st, rec):
+def phase_class(ph):
     if ph.startswith("import"):
         return "import"
     if ph.startswith("Construct#"):
@@ -483,25 +484,35 @@ def run(tier):
     warm_hist = [{"op": "Construct", "art": i + 1, "kind": k, "how": h, "ex": e} for i, (k, h, e) in enumerate(
         [("MBI", "config", ["key"]), ("SB21", "config", []), ("HAB", "config", []), ("BEE", "config", ["sw_key"]), ("OTFAD", "ctor", []),
          ("IEE", "ctor", []), ("HABRT", "ctor", []), ("HEX", "call", [])])]
-    bounds = {"MC_ARTS": 2, "MC_EXPORTS": 2, "MC_PROCS": 2, "MC_MENU": "base"} if quick else {"MC_ARTS": 2, "MC_EXPORTS": 3, "MC_PROCS": 2, "MC_MENU": "full"}
-    ib = dict(bounds, IMPL_TABLE="asbuilt", MC_MENU="base")
+    bounds = {"MC_ARTS": 2, "MC_EXPORTS": 2, "MC_PROCS": 2, "MC_MENU": "base"} if quick else {"MC_ARTS": 3, "MC_EXPORTS": 2, "MC_PROCS": 2, "MC_MENU": "base"}
+    ib = {"MC_ARTS": 2, "MC_EXPORTS": 2, "MC_PROCS": 2, "MC_MENU": "base", "IMPL_TABLE": "asbuilt"}
+    # model checking of the R-spec runs beside everything else (thorough: 10^6 states) and is collected at the end
+    install()
+    mc_box = {}
+
+    def mc_job():
+        try:
+            mc_box["r"] = tlc.mc("C17", "FreshMC", "FreshMC.cfg", env=bounds, timeout=3000, heap="6g", workers=4 if quick else 8,
+                                 require_actions=("MImport", "MConstruct", "MExport", "MRestart"))
+        except BaseException as e:  # noqa: BLE001 - re-raised in the main thread
+            mc_box["e"] = e
+
+    mc_thread = threading.Thread(target=mc_job, daemon=True)
+    mc_thread.start()
     res = parallel({
         "warm": lambda: run_segment(warm_hist, os.path.join(scratch(), "c17", "warm"), report_modules=True),
         "canary": lambda: canary(v),
-        "mc": lambda: tlc.mc("C17", "FreshMC", "FreshMC.cfg", env=bounds, timeout=600, heap="4g", workers=4,
-                             require_actions=("MImport", "MConstruct", "MExport", "MRestart")),
         "asbuilt": lambda: tlc.run("C17", "FreshImpl", "FreshImpl.cfg", env=ib, timeout=600, heap="4g", workers=2),
         "intended": lambda: tlc.run("C17", "FreshImpl", "FreshImpl.cfg", env=dict(ib, IMPL_TABLE="intended"), timeout=600, heap="4g", workers=2),
         "base2": lambda: gen(2, 1, "base"),
         "full2": lambda: gen(2, 0 if quick else 1, "full"),
         "base3": lambda: gen(3, 0 if quick else 1, "base"),
-        "sim": lambda: gen(99, 2, "full", mode="free", simulate=f"num={24 if quick else 300}", length=12 if quick else 16),
+        "sim": lambda: gen(99, 2, "full", mode="free", simulate=f"num={14 if quick else 160}", length=12 if quick else 16),
     }, max_threads=10)
     bad = [s for s in res["warm"]["steps"] if "error" in s]
     if bad:
         raise Machinery(f"warm-up interpreter: a public builder failed: {bad[0]['error']}\n{bad[0].get('tb')}")
-    mc, im, ii = res["mc"], res["asbuilt"], res["intended"]
-    v.add_mc(mc)
+    im, ii = res["asbuilt"], res["intended"]
     table = [x for x in im.json_prints() if isinstance(x, list) and x and isinstance(x[0], dict) and "when" in x[0]]
     table = table[0] if table else []
     v.extra["ispec_prediction"] = {"table": "asbuilt", "violated": im.violated, "states": im.distinct,
@@ -509,8 +520,7 @@ def run(tier):
     if ii.violated or not ii.no_error:
         raise Machinery(f"I-spec with the intended draw times violates {ii.violated}")
     v.add_mc(ii)
-    say(f"[C17] MC: R-spec with the ideal generator {mc.distinct} states, invariants hold; I-spec as built -> {im.violated or 'no violation'} predicted, "
-        f"intended draw times -> invariants hold ({v.timer.s()}s)")
+    say(f"[C17] I-spec as built -> {im.violated or 'no violation'} predicted, intended draw times -> invariants hold ({v.timer.s()}s)")
     (base2, g1), (full2, g2), (base3, g3), (sim, _g4) = res["base2"], res["full2"], res["base3"], res["sim"]
     for g in (g1, g2, g3):
         v.add_mc(g)
@@ -616,6 +626,11 @@ def run(tier):
 
     decide(v, traces, infos, "all histories")
     canary_e2e(v, healthy=not v.violations)
+    mc_thread.join()
+    if "e" in mc_box:
+        raise mc_box["e"]
+    v.add_mc(mc_box["r"])
+    say(f"[C17] MC: R-spec with the ideal generator: {mc_box['r'].distinct} states, NoSharedSecret / NoNonceReuse hold, every action fired ({v.timer.s()}s)")
 
     # ---- bookkeeping for the evidence
     for t in traces:
